@@ -43,16 +43,60 @@ def _nest(flat, shape):
     return [_nest(flat[i * step:(i + 1) * step], shape[1:]) for i in range(shape[0])]
 
 
+def _yaml_scalar(v):
+    if isinstance(v, bool):
+        return "true" if v else "false"
+    if isinstance(v, str):
+        return "'%s'" % v
+    return repr(v)
+
+
+def dcop_yaml(case):
+    """the case as a yaml DCOP: same variables / domains / initial values; every binary constraint becomes an
+    intention `hi if a == b else lo` (works for any value type); other arities are dropped"""
+    lines = ["name: t", "objective: %s" % case["mode"], "domains:"]
+    for i, v in enumerate(case["vars"]):
+        lines.append("  d%02d: {values: [%s]}" % (i, ", ".join(_yaml_scalar(x) for x in v["dom"])))
+    lines.append("variables:")
+    for i, v in enumerate(case["vars"]):
+        extra = ""
+        if v.get("init") is not None:
+            extra = ", initial_value: %s" % _yaml_scalar(v["init"])
+        lines.append("  %s: {domain: d%02d%s}" % (vname(i), i, extra))
+    lines.append("constraints:")
+    k = 0
+    for c in case["cons"]:
+        if len(c["scope"]) == 2 and c["scope"][0] != c["scope"][1]:
+            a, b = vname(c["scope"][0]), vname(c["scope"][1])
+            lines.append("  c%02d: {type: intention, function: \"%d if %s == %s else %d\"}"
+                         % (k, max(c["table"]), a, b, min(c["table"])))
+            k += 1
+    if k == 0:
+        lines.append("  c00: {type: intention, function: \"0 if %s == %s else 0\"}" % (vname(0), vname(0)))
+    lines.append("agents: [a1]")
+    return "\n".join(lines) + "\n"
+
+
 def build_dcop(case):
+    """case["via"]: "api" (default) | "costfunc" (VariableWithCostFunc for variables with costs) | "yaml"
+    (the DCOP goes through yamldcop.load_dcop).  A ValueError of the construction is the caller's business."""
     from pydcop.dcop.dcop import DCOP
-    from pydcop.dcop.objects import Domain, Variable, VariableWithCostDict
+    from pydcop.dcop.objects import Domain, Variable, VariableWithCostDict, VariableWithCostFunc
     from pydcop.dcop.relations import NAryMatrixRelation
+    via = case.get("via", "api")
+    if via == "yaml":
+        from pydcop.dcop.yamldcop import load_dcop
+        dcop = load_dcop(dcop_yaml(case))
+        return dcop, [dcop.variables[vname(i)] for i in range(len(case["vars"]))]
     dcop = DCOP("t", case["mode"])
     vs = []
     for i, v in enumerate(case["vars"]):
         dom = Domain("d%02d" % i, "d", list(v["dom"]))
-        if v.get("costs") is None:
+        if v.get("costs") is None and via != "costfunc":
             var = Variable(vname(i), dom, v.get("init"))
+        elif via == "costfunc":
+            tbl = dict(zip(v["dom"], v.get("costs") or [0] * len(v["dom"])))
+            var = VariableWithCostFunc(vname(i), dom, (lambda t: (lambda x: t[x]))(tbl), v.get("init"))
         else:
             var = VariableWithCostDict(vname(i), dom, dict(zip(v["dom"], v["costs"])), v.get("init"))
         vs.append(var)
@@ -189,7 +233,14 @@ def run_case(case):
     rng = random.Random(seed)
     random.seed(seed)
     numpy.random.seed(seed % (2 ** 32))
-    dcop, vs, mod, comps = build_computations(case)
+    try:
+        dcop, vs, mod, comps = build_computations(case)
+    except ValueError as e:
+        if case.get("badinit") and ("initial value" in str(e).lower()):
+            # the library refused to declare a variable with an initial value outside its domain
+            return dict(rejected=True, error=str(e)[:160], calls=[], events=[], raises=[], final={}, draws=[],
+                        model=None, nsched=0, sched=[], varcomps=[], comps=[])
+        raise
     algo = case["algo"]
     doms = {vname(i): list(v["dom"]) for i, v in enumerate(case["vars"])}
     orc = Oracle(random.Random(seed + 1))
